@@ -2,6 +2,7 @@ package nodes
 
 import (
 	"fmt"
+	"github.com/andydunstall/piko/server/config"
 	"math/rand"
 	"strings"
 	"time"
@@ -43,6 +44,16 @@ func newC06Rig(n int, timeoutDisabled bool) (*c06rig, error) {
 		o := NodeOpts{ID: fmt.Sprintf("s%d", i)}
 		if timeoutDisabled {
 			o.ProxyTimeout = -1
+		}
+		// legal, non-default access-log settings: what is logged must not change
+		// what is routed (the filters name the routing headers on purpose)
+		odd := i%2 == 1
+		o.Mutate = func(c *config.Config) {
+			if odd {
+				c.Proxy.AccessLog.RequestHeaders.AllowList = []string{"User-Agent"}
+			} else {
+				c.Proxy.AccessLog.RequestHeaders.BlockList = []string{"X-Piko-Forward", "x-piko-endpoint", "Authorization"}
+			}
 		}
 		nd, err := StartNode(o)
 		if err != nil {
@@ -547,13 +558,13 @@ func runC06(sh *core.Shard, a props.Args) {
 func init() {
 	props.Register(&props.Prop{
 		ID: "C06", Level: "exploration", Race: true, Parallel: 8,
-		Rule: "2-4 stand-alone real nodes with beliefs injected through cluster.State's public mutators: every belief matrix (node i believes node j serves the endpoint, rightly or wrongly; includes mutual and cyclic beliefs) x every placement of real upstreams x every entry node x route in {HTTP, HTTP carrying Upgrade: websocket, TCP tunnel}, with the proxy timeout at its default and disabled. For N=2 (4 matrices) and N=3 (64 matrices) the space is enumerated completely (in quick the N=3 matrices are split between the two timeout configurations; thorough runs both in full); N=4 is sampled. One request at a time; per-node deltas of piko_proxy_requests_total, piko_upstreams_upstream_requests_total and piko_upstreams_remote_requests_total are scraped once every node's in-flight gauge is zero. Oracle: <=1 handler invocation per node and <=2 in total, <=1 remote selection, none on a node with a local upstream or on a node that received the request forwarded; entry with local upstream serves it itself; otherwise exactly one forward to a believed node, served by that node's local upstream or 502; nobody believed => single 502. Distinct = one per (N, matrix, placement, entry, route, config).",
+		Rule: "every node runs with a non-default access-log header filter (odd nodes an allow-list of User-Agent only, even nodes a block-list naming the routing headers); 2-4 stand-alone real nodes with beliefs injected through cluster.State's public mutators: every belief matrix (node i believes node j serves the endpoint, rightly or wrongly; includes mutual and cyclic beliefs) x every placement of real upstreams x every entry node x route in {HTTP, HTTP carrying Upgrade: websocket, TCP tunnel}, with the proxy timeout at its default and disabled. For N=2 (4 matrices) and N=3 (64 matrices) the space is enumerated completely (in quick the N=3 matrices are split between the two timeout configurations; thorough runs both in full); N=4 is sampled. One request at a time; per-node deltas of piko_proxy_requests_total, piko_upstreams_upstream_requests_total and piko_upstreams_remote_requests_total are scraped once every node's in-flight gauge is zero. Oracle: <=1 handler invocation per node and <=2 in total, <=1 remote selection, none on a node with a local upstream or on a node that received the request forwarded; entry with local upstream serves it itself; otherwise exactly one forward to a believed node, served by that node's local upstream or 502; nobody believed => single 502. Distinct = one per (N, matrix, placement, entry, route, config).",
 		Assumptions: []string{
 			"counters are read from /metrics at quiescence (in-flight gauge zero), so a loop that never terminates shows up as a watchdog/inconclusive plus amplified counts",
 			"requests are sequential: the property is about routing decisions, not concurrency (C20)",
 		},
-		RequireCounters: []string{"forwarded_requests", "forwarded_then_502", "requests", "local_preference_orders"},
+		RequireCounters:   []string{"forwarded_requests", "forwarded_then_502", "requests", "local_preference_orders"},
 		ExhaustiveWhenAll: false,
-		Run:             runC06,
+		Run:               runC06,
 	})
 }
